@@ -277,4 +277,12 @@ theorem gen_entryStoreTail (l : LayoutOut) (n : Nat) (srcC : List Generated.SrcP
     writesBytes_append, List.map_append, List.flatten_append, h1, h2, hfm, hlen]
   simp [writesBytes, leBytes_one, ofNat_mod_u8]
 
+/-- **The key size of a value store is the source's**: `PlainValueStore::key_size` (`needed_bytes` of the data
+    size) and `IndexedValueStore::key_size` (`needed_bytes` of the number of values) translated on every run
+    are `VStore.keySize` of the writer model. -/
+theorem gen_keySize (s : VStore) :
+    s.keySize = if s.indexed then Generated.indexedStoreKeySize s.values.length else Generated.plainStoreKeySize s.dataSize := by
+  unfold VStore.keySize Generated.indexedStoreKeySize Generated.plainStoreKeySize
+  simp [gen_neededBytes]
+
 end Jubako
